@@ -511,6 +511,9 @@ func c01(c *Ctx) {
 	})
 
 	c.Rule("C01.R6", "receive path formulas: counter += int64(value/rate); timer sampled count += 1/rate (all branches agree, C07.R5b); four-type dispatch in Receive", 6, func(r *Rule) {
+		writeBackAll(c, r, func(fn *ssa.Function) bool {
+			return strings.Contains(fn.Name(), "receive") || strings.Contains(fn.Name(), "Merge") || strings.Contains(FuncName(fn), "MetricAggregator")
+		})
 		rc := w.Func("", "(*MetricMap).receiveCounter")
 		rt := w.Func("", "(*MetricMap).receiveTimer")
 		rv := w.Func("", "(*MetricMap).Receive")
